@@ -107,6 +107,7 @@ func (t *Collection) closeCollection() { // Just "close" is a keyword.
 func (t *Collection) GetItem(key []byte, withValue bool) (i *Item, err error) {
 	rnl := t.rootAddRef()
 	defer t.rootDecRef(rnl)
+	verifYield("get.pinned", t)
 	n := rnl.root
 	for {
 		nNode, err := n.read(t.store)
@@ -202,6 +203,7 @@ func (t *Collection) SetItem(item *Item) (err error) {
 	// Can't reclaim n right now because r might point to n.
 	rnlNew.reclaimLater[0] = t.reclaimMarkUpdate(nloc,
 		&rnl.reclaimMark, &rnlNew.reclaimMark)
+	verifYield("set.built", t)
 	if !t.rootCAS(rnl, rnlNew) {
 		return errors.New("concurrent mutation attempted")
 	}
@@ -261,6 +263,7 @@ func (t *Collection) Delete(key []byte) (wasDeleted bool, err error) {
 	rnlNew.reclaimLater[2] = t.reclaimMarkUpdate(middle,
 		&rnl.reclaimMark, &rnlNew.reclaimMark)
 	t.markReclaimable(rnlNew.reclaimLater[2], &rnlNew.reclaimMark)
+	verifYield("del.built", t)
 	if !t.rootCAS(rnl, rnlNew) {
 		return false, errors.New("concurrent mutation attempted")
 	}
@@ -409,6 +412,7 @@ func (t *Collection) iterate(it *iterator, v iteratorVisitor) {
 		// drain
 		for range it.next {
 		}
+		verifEvent("iter.exit", t, nil)
 	}()
 
 	if _, ok := <-it.next; !ok {
@@ -615,6 +619,7 @@ func (t *Collection) VisitItemsAscendEx(target []byte, withValue bool,
 	visitor ItemVisitorEx) error {
 	rnl := t.rootAddRef()
 	defer t.rootDecRef(rnl)
+	verifYield("visit.pinned", t)
 
 	var prevVisitItem *Item
 	var errCheckedVisitor error
@@ -643,6 +648,7 @@ func (t *Collection) VisitItemsDescendEx(target []byte, withValue bool,
 	visitor ItemVisitorEx) error {
 	rnl := t.rootAddRef()
 	defer t.rootDecRef(rnl)
+	verifYield("visit.pinned", t)
 
 	_, err := t.store.visitNodes(t, rnl.root,
 		target, withValue, visitor, 0, descendChoice)
@@ -661,6 +667,7 @@ func descendChoice(cmp int, n *node) (bool, *nodeLoc, *nodeLoc) {
 func (t *Collection) GetTotals() (numItems uint64, numBytes uint64, err error) {
 	rnl := t.rootAddRef()
 	defer t.rootDecRef(rnl)
+	verifYield("totals.pinned", t)
 	n := rnl.root
 	nNode, err := n.read(t.store)
 	if err != nil || n.isEmpty() || nNode == nil {
@@ -787,6 +794,7 @@ func (t *Collection) rootCAS(prev, next *rootNodeLoc) bool {
 		prev.chainedRootNodeLoc = t.root
 		t.root.refs++ // This ref is owned by prev.
 	}
+	verifEvent("cas", t, next)
 
 	return true
 }
@@ -795,6 +803,7 @@ func (t *Collection) rootAddRef() *rootNodeLoc {
 	t.rootLock.Lock()
 	defer t.rootLock.Unlock()
 	t.root.refs++
+	verifEvent("addref", t, t.root)
 	return t.root
 }
 
@@ -808,6 +817,7 @@ func (t *Collection) rootDecRef(r *rootNodeLoc) {
 
 func (t *Collection) rootDecRefUnlocked(r *rootNodeLoc) {
 	r.refs--
+	verifEvent("decref", t, r)
 	if r.refs > 0 {
 		return
 	}
